@@ -807,7 +807,7 @@ func (g *Gen) sizeSweep(format string) {
 					suspicious = true
 				}
 			}
-			if (suspicious && forwarded < 12) || n%(maxN/4) == 1 {
+			if (suspicious && forwarded < 12) || n == 1 || n == 97 || n == 211 || n == 416 { // (the unsuspicious ones forwarded stay small: TLC decodes them byte by byte)
 				if suspicious {
 					forwarded++
 				}
